@@ -156,6 +156,9 @@ def extract(repo, ci):
 
 
 def run(ctx):
+    from ..shared import foreign_state_rule as _fsr
+
+    ctx.attempt(_fsr, ctx, 'R18.21', lambda f, _s=('EasyFEA.FEM', 'EasyFEA.Simulations', 'EasyFEA.Models'): f.module.name.startswith(_s))
     from . import e2e_rules as _e2e
 
     ctx.attempt(_e2e.dynamics_rule, ctx, 'R18.E1')
